@@ -1,10 +1,132 @@
-(* C02 -- placeholder until the update-law theorems are integrated *)
+(* C02 -- update operators and replacements transform documents exactly as specified.
+   Specification: Spec/UpdateLaws.v.  Proofs: Proofs/C02*.v.  Counterexamples excluded by the
+   guard bits 8, 16, 32, 64, 128 of c02_reasons: Refuted/C02.v, Refuted/C02OpLaw.v. *)
 From Coq Require Import ZArith List String Bool.
-From Verif Require Import Value Update UpdateLaws.
+From Verif Require Import Value PyEq Path Filter Update Coll HistCheck HistProps ProjectSpec
+                          UpdateLaws.
+From Verif.Proofs Require Import C02Base C02Walk C02FrameThm C02OpLawD C02OpLaw C02Replace
+                                 C02Store C02Step C02History.
 Import ListNotations.
 Open Scope Z_scope.
 Open Scope string_scope.
+
 Example C02_set_creates_and_pads :
   apply_update (VDoc []) (VDoc [("$set", VDoc [("a.b.2", VInt 7)])]) false 0 (VDoc [("_id", VInt 1)])
   = Ok (VDoc [("_id", VInt 1); ("a", VDoc [("b", VDoc [("2", VInt 7)])])]).
 Proof. vm_compute. reflexivity. Qed.
+
+(* ---- 1. the path walk of $set --------------------------------------------------------- *)
+(* the value set is found again at the path (parent_ok: the values along the path are
+   sub-documents or missing) *)
+Theorem C02_set_get : forall parts now d v d',
+  parts <> [] -> parent_ok parts d = true ->
+  walk USet now parts d v = Ok d' -> get_by_dot parts d' = Some v.
+Proof. exact set_get. Qed.
+Print Assumptions C02_set_get.
+
+(* a missing first component is created at the end of the document, bound to nested singleton
+   documents down to the value *)
+Theorem C02_set_creates : forall p rest now fs v,
+  assoc p fs = None ->
+  walk USet now (p :: rest) (VDoc fs) v = Ok (VDoc (fs ++ [(p, nest rest v)])).
+Proof. exact set_creates. Qed.
+Print Assumptions C02_set_creates.
+
+(* setting index i >= len(xs) pads the array with nulls *)
+Theorem C02_set_pads : forall now xs (i : nat) v,
+  (List.length xs <= i)%nat ->
+  apply_updater USet now (VArr xs) (string_of_nat i) v
+  = Ok (VArr (xs ++ repeat VNull (i - List.length xs) ++ [v])).
+Proof. exact set_pads. Qed.
+Print Assumptions C02_set_pads.
+
+(* every path that neither extends nor is extended by the path set keeps its value *)
+Theorem C02_set_frame_path : forall parts now d v d',
+  parent_ok parts d = true -> walk USet now parts d v = Ok d' ->
+  forall q, is_prefix_of q parts = false -> is_prefix_of parts q = false ->
+  get_by_dot q d' = get_by_dot q d.
+Proof. exact set_frame_path. Qed.
+Print Assumptions C02_set_frame_path.
+
+(* ---- 2. the frame: every field the specification does not address is left untouched ----- *)
+Theorem C02_frame : forall spec u wi now d d',
+  first_key_dollar u = Some true ->
+  wf_value u = true -> wf_value d = true ->
+  collide (addressed u) = false ->
+  canon_paths u = true ->
+  fits_all u d = true ->
+  apply_update spec u wi now d = Ok d' ->
+  frame_ok u d d' = true.
+Proof. exact frame_sound. Qed.
+Print Assumptions C02_frame.
+
+(* ---- 3. the operator laws: one operator on one field ------------------------------------ *)
+(* general form; addtoset_risk / aware_risk: Proofs/C02OpLawD.v (Python == against BSON
+   equality between the operand and the old array; an aware datetime in the old array) *)
+Theorem C02_op_law_general : forall spec op p arg now d d' b,
+  patch arg = arg ->
+  wf_value d = true ->
+  ((op =? "$min") || (op =? "$max")) && minmax_cross_field p arg d = false ->
+  (op =? "$addToSet") && addtoset_risk p arg d = false ->
+  ((op =? "$pull") || (op =? "$pullAll")) && aware_risk p d = false ->
+  apply_update spec (VDoc [(op, VDoc [(p, arg)])]) false now d = Ok d' ->
+  op_law op p arg now d d' = Some b -> b = true.
+Proof. exact op_law_sound. Qed.
+Print Assumptions C02_op_law_general.
+
+(* on stored (normalised) documents *)
+Theorem C02_op_law : forall spec op p arg now d d' b,
+  patch arg = arg -> patch d = d -> wf_value d = true ->
+  ((op =? "$min") || (op =? "$max")) && minmax_cross_field p arg d = false ->
+  (op =? "$addToSet") && addtoset_eq_risk p arg d = false ->
+  apply_update spec (VDoc [(op, VDoc [(p, arg)])]) false now d = Ok d' ->
+  op_law op p arg now d d' = Some b -> b = true.
+Proof. exact op_law_sound_patched. Qed.
+Print Assumptions C02_op_law.
+
+(* ---- 4. replacements -------------------------------------------------------------------- *)
+Theorem C02_replace : forall spec r now d d',
+  patch r = r -> wf_value r = true ->
+  (exists rfs, r = VDoc rfs /\ rfs <> [] /\
+               forallb (fun kv => negb (starts_dollar (fst kv))) rfs = true) ->
+  replace_id_risk spec r d = false ->
+  apply_update spec r false now d = Ok d' -> replace_law r d d' = true.
+Proof. exact replace_law_sound. Qed.
+Print Assumptions C02_replace.
+
+(* ---- 5. histories ----------------------------------------------------------------------- *)
+(* one update step of the collection, from a state satisfying the invariant Inv
+   (Proofs/C02Step.v: store keys pairwise different and reflexive under Python ==, no TTL
+   index, stored documents well-formed and normalised) *)
+Theorem C02_update_step : forall pre5 c f u multi upsert c' r i i',
+  Inv c -> wf_value u = true ->
+  collide (addressed u) = false -> canon_paths u = true ->
+  (forall k d, In (k, d) (docs c) -> matched f d = true ->
+               fits_all u d = true /\ minmax_cross u d = false /\ addtoset_cross u d = false) ->
+  step pre5 c (OUpdate f u multi upsert) = (c', r) ->
+  c02_step (mkCtx (docs c) i (now c)) (OUpdate f u multi upsert) (r, docs c', i') = true.
+Proof. exact c02_step_update. Qed.
+Print Assumptions C02_update_step.
+
+Theorem C02_replace_step : forall pre5 c f r upsert c' rr i i',
+  Inv c -> wf_value r = true ->
+  (forall k d, In (k, d) (docs c) -> matched f d = true ->
+               replace_id_risk (patch f) (patch r) d = false) ->
+  step pre5 c (OReplace f r upsert) = (c', rr) ->
+  c02_step (mkCtx (docs c) i (now c)) (OReplace f r upsert) (rr, docs c', i') = true.
+Proof. exact c02_step_replace. Qed.
+Print Assumptions C02_replace_step.
+
+(* the history theorem, relative to the invariant being kept along the history (reach_inv)
+   and to the clock being moved by OSetClock only (clock_ok).
+   Full statement (not proved: preservation of Inv and of the clock by every operation):
+     forall pre5 ops, Forall op_wf ops ->
+       c02_reasons ops (model_obs pre5 empty_coll ops) = 0 ->
+       modelled pre5 empty_coll ops = true ->
+       c02_ok ops (model_obs pre5 empty_coll ops) = true *)
+Theorem C02_history_partial : forall pre5 ops,
+  reach_inv pre5 empty_coll ops -> clock_ok pre5 empty_coll ops -> Forall op_wf ops ->
+  c02_reasons ops (model_obs pre5 empty_coll ops) = 0 ->
+  c02_ok ops (model_obs pre5 empty_coll ops) = true.
+Proof. exact history_sound_partial. Qed.
+Print Assumptions C02_history_partial.
